@@ -25,6 +25,9 @@ type runner struct {
 // traceLines are the lines sent to the model driver for one execution.
 func traceLines(evs []Ev) []string {
 	lines := []string{"reset fixed=1"}
+	if os.Getenv("C06_MODEL_VARIANT") == "orig" { // self-test of the tie: compare against the model of the unrepaired loop
+		lines[0] = "reset fixed=0"
+	}
 	for _, e := range evs {
 		if e.Kind == "hang" || e.Kind == "panic" {
 			continue
